@@ -1,5 +1,5 @@
 (* GENERATED on every run by harness/vlib/py2coq.py (symbolic execution of the Python source). Do not edit.
-   sources: /var/tmp/seed/C02-6/wt/commonroad/scenario/traffic_light.py sha1=2d13ef0188da *)
+   sources: /repo/commonroad/scenario/traffic_light.py sha1=2d13ef0188da *)
 From Coq Require Import ZArith List Bool.
 Import ListNotations.
 From CR Require Import Model.Interval Model.TrafficLight.
